@@ -89,6 +89,28 @@ def in_subgroup_x(x):
     return legendre(1 - A * x * x) == 1
 
 
+def point_with_ratio(lam):
+    """a valid element (on the curve, passing the subgroup test) whose x/y equals lam, or None.
+    With x = lam*y the curve equation is the quadratic  d lam^2 Y^2 - (a lam^2 + 1) Y + 1 = 0  in Y = y^2."""
+    lam %= P
+    l2 = lam * lam % P
+    if l2 == 0:
+        return None
+    aa, bb = D * l2 % P, (-(A * l2 + 1)) % P
+    s = sqrt((bb * bb - 4 * aa) % P)
+    if s is None:
+        return None
+    for sg in (s, (-s) % P):
+        Y = (-bb + sg) * inv(2 * aa % P) % P
+        y = sqrt(Y)
+        if y is None or y == 0:
+            continue
+        x = lam * y % P
+        if on_curve((x, y)) and in_subgroup_x(x):
+            return (x, y)
+    return None
+
+
 def compress(p):
     x, y = p
     if not lex_largest(y):
